@@ -56,6 +56,10 @@ pub enum ItOp {
     Rest,
     /// consume the rest in reverse
     RevRest,
+    /// SplitIterator::split_at(at mapped onto 0..=len), then drive both halves
+    /// (left first). Ends the history. Iterators without `split_at` (single
+    /// lanes) treat it as `Rest`.
+    Split { at: u8, left: Vec<ItOp>, right: Vec<ItOp> },
 }
 
 #[derive(Clone, Debug, Serialize, Deserialize, PartialEq)]
@@ -80,6 +84,10 @@ pub enum NdOp {
     SliceFirst { start: u8, len: u8 },
     /// rank-2 only: typed (index, range) / (range, index) / (index, index)
     Slice2 { form: u8, i: u8, j: u8, start: u8, len: u8 },
+    /// get_array::<M>(base, dim) / set_array (write = true); rank 1 additionally
+    /// to_array / assign_array when `whole` is set. `at`: 0 => 0, 1 => len-M,
+    /// 2 => len-M+1, 3 => len-M+2, otherwise mapped onto 0..len.
+    Array { write: bool, whole: bool, m: u8, dim: u8, at: u8, base: Vec<u8> },
 }
 
 #[derive(Clone, Debug, Serialize, Deserialize, PartialEq)]
@@ -109,6 +117,18 @@ pub enum RObs {
     Map,
     Data,
     Item,
+    /// get_array / to_array on a static-rank read-only view (rank 1..=4)
+    Array { whole: bool, m: u8, dim: u8, at: u8, base: Vec<u8> },
+    /// slice_copy with (possibly negative-step / out-of-range) items
+    SliceCopy(Vec<ItemSpec>),
+    /// Tensor::uninit(shape).init_from(&view)
+    InitFrom,
+    /// Tensor::concat(dim, &[view, view])
+    Concat { dim: u8 },
+    ToContiguous,
+    ToShape,
+    ToSlice,
+    Reshaped(u8),
 }
 
 #[derive(Clone, Debug, Serialize, Deserialize, PartialEq)]
@@ -376,19 +396,37 @@ fn refused(ctx: &mut Ctx, op: &str, valid: bool, p: vcore::PanicInfo) -> R<()> {
 struct Hist {
     front: bool,
     back: bool,
+    split: bool,
 }
 
 impl Hist {
     fn class(&self) -> &'static str {
-        match (self.front, self.back) {
-            (true, true) => "mixed",
-            (_, true) => "back",
-            _ => "front",
+        match (self.front, self.back, self.split) {
+            (true, true, false) => "mixed",
+            (_, true, false) => "back",
+            (_, false, false) => "front",
+            (true, true, true) => "mixed+split",
+            (_, true, true) => "back+split",
+            (_, false, true) => "front+split",
         }
     }
 }
 
-fn drive<I, F>(mut it: I, ops: &[ItOp], h: &mut Hist, mut f: F) -> R<()>
+type SplitFn<I> = fn(I, usize) -> (I, I);
+
+fn split_of<I: rten_base::iter::SplitIterator>() -> Option<SplitFn<I>> {
+    Some(|it, k| it.split_at(k))
+}
+
+fn drive<I, F>(it: I, ops: &[ItOp], h: &mut Hist, mut f: F) -> R<()>
+where
+    I: DoubleEndedIterator + ExactSizeIterator,
+    F: FnMut(I::Item, &Hist) -> R<()>,
+{
+    drive_s(it, ops, h, None, &mut f)
+}
+
+fn drive_s<I, F>(mut it: I, ops: &[ItOp], h: &mut Hist, split: Option<SplitFn<I>>, f: &mut F) -> R<()>
 where
     I: DoubleEndedIterator + ExactSizeIterator,
     F: FnMut(I::Item, &Hist) -> R<()>,
@@ -439,13 +477,46 @@ where
                 });
                 return err.map_or(Ok(()), Err);
             }
+            ItOp::Split { at, left, right } => {
+                let Some(sp) = split else {
+                    h.front = true;
+                    let mut err = None;
+                    let hh = *h;
+                    it.for_each(|x| {
+                        if err.is_none() {
+                            if let Err(e) = f(x, &hh) {
+                                err = Some(e);
+                            }
+                        }
+                    });
+                    return err.map_or(Ok(()), Err);
+                };
+                h.split = true;
+                let k = sel(*at, it.len() + 1);
+                let (l, r) = sp(it, k);
+                // both halves stay alive while the left one is driven
+                drive_s(l, left, h, split, f)?;
+                return drive_s(r, right, h, split, f);
+            }
         }
     }
     Ok(())
 }
 
+fn flat<'a>(ops: &'a [ItOp], out: &mut Vec<&'a ItOp>) {
+    for o in ops {
+        out.push(o);
+        if let ItOp::Split { left, right, .. } = o {
+            flat(left, out);
+            flat(right, out);
+        }
+    }
+}
+
 fn both_ends(ops: &[ItOp]) -> bool {
-    ops.iter().any(|o| matches!(o, ItOp::Next | ItOp::Nth(_) | ItOp::Rest)) && ops.iter().any(|o| matches!(o, ItOp::NextBack | ItOp::RevRest))
+    let mut all = Vec::new();
+    flat(ops, &mut all);
+    all.iter().any(|o| matches!(o, ItOp::Next | ItOp::Nth(_) | ItOp::Rest)) && all.iter().any(|o| matches!(o, ItOp::NextBack | ItOp::RevRest))
 }
 
 struct MutSink<'c> {
